@@ -69,30 +69,31 @@ type Step struct {
 }
 
 type Trace struct {
-	Steps       []*Step
-	Keys        []*world.Key
-	NatTimeout  time.Duration
-	Open        []string
-	Returned    bool
-	Recovered   []string
-	Real        service.UDPMetrics
-	AllMetrics  []world.UDPEvent
-	Deadlines   map[string][]time.Duration // per server socket: sequence of read deadlines set (relative to Epoch)
-	Slack       time.Duration              // time a teardown may take (the configured duration of a removal report)
+	Steps      []*Step
+	Keys       []*world.Key
+	NatTimeout time.Duration
+	Open       []string
+	Returned   bool
+	Recovered  []string
+	Real       service.UDPMetrics
+	AllMetrics []world.UDPEvent
+	Deadlines  map[string][]time.Duration // per server socket: sequence of read deadlines set (relative to Epoch)
+	Slack      time.Duration              // time a teardown may take (the configured duration of a removal report)
 }
 
 type Config struct {
 	Keys       []*world.Key
 	NatTimeout time.Duration
 	Real       func() service.UDPMetrics
-	FailSocket int // the n-th outbound socket creation fails (0 = never)
-	Validator  string // "" default policy | "allow-all"
+	FailSocket int                 // the n-th outbound socket creation fails (0 = never)
+	Validator  string              // "" default policy | "allow-all"
 	Hosts      map[string][]string // extra resolver entries
 	Listeners  int                 // UDP listeners of the service, all served by the same handler (default 1)
 	SlowRemove time.Duration       // every removal report takes this long (virtual time)
 	ViaManager bool                // the handler reads from a listener-manager handle (shared socket), as in the server
 	DualStack  bool                // the proxy listens on [::]:9000 (IPv4 and IPv6 clients); IPv6 clients send to [::1]:9000
 	KeepOther  bool                // with ViaManager: somebody else holds a second handle on the proxy address until the very end
+	ViaService bool                // the handler is the one inside service.NewShadowsocksService built without a NAT timeout (default: 5 minutes; NatTimeout must say 5 minutes for the oracles)
 	AutoReply  []int               // targets (by index) that answer every datagram at once by themselves (a thread of their own)
 }
 
@@ -139,6 +140,9 @@ func Run(cfg Config, ops []Op, tr *Trace) {
 	}
 	w := world.NewUDP(cfg.Keys, cfg.NatTimeout, real)
 	w.Rec.SlowRemove = cfg.SlowRemove
+	if cfg.ViaService {
+		w.UseService()
+	}
 	w.ViaManager = cfg.ViaManager
 	w.KeepOther = cfg.KeepOther
 	if cfg.DualStack {
